@@ -35,6 +35,20 @@ BENIGN_COMPOUND = {
 }
 
 
+#: the same reviews keyed by what the table is (module, constructor) rather than by its private name, so that a rename of the
+#: table and of the function using it does not turn a reviewed access into a finding
+BENIGN_BY_SHAPE = {
+    ('beartype._decor._type.decortype', 'defaultdict(set)'): 'redefinition heuristic: worst case one redundant or one missed clear_caches()',
+}
+
+
+def _benign(q, tables):
+    if q in BENIGN_COMPOUND:
+        return True
+    m_, st_ = tables[q]
+    return (q.rsplit('.', 1)[0], norm(getattr(st_, 'value', None))) in BENIGN_BY_SHAPE
+
+
 def _locks(repo):
     out = {}
     for mn, m in repo.modules.items():
@@ -127,7 +141,7 @@ def run(ctx):
                 reads = [x for x in xs if not _is_store(x)]
                 if stores and reads:
                     compound.append(fn)
-            ok = not compound or q in BENIGN_COMPOUND
+            ok = not compound or _benign(q, tables)
             ctx.ob('C15.R1', f'lock-free:{q}', mod.where(tables[q][1]),
                    f'lock-free table {name} is only touched by single atomic operations (or its compound access is '
                    f'reviewed as benign)', ok,
@@ -159,7 +173,7 @@ def run(ctx):
                 locked = all(_lock_of(c, locks, mod) for c in muts) and all(_lock_of(t, locks, mod) for t in tests)
                 ctx.ob('C15.R1', f'lock-free-alias:{q}:{qualname_of(fn)}', mod.where(muts[0]),
                        f'an element of the shared table {name} is tested and then mutated under one lock (or the table is reviewed as benign)',
-                       locked or q in BENIGN_COMPOUND,
+                       locked or _benign(q, tables),
                        f'`{norm(tests[0].test)[:50]}` … `{norm(muts[0])[:50]}` without a lock: two threads pass the test before either acts')
     # the import-hook registry lives in attributes of the claw_state singleton rather than in module-level
     # names: same lock-set condition, decided by the rule shared with C06.R1
